@@ -9,8 +9,6 @@ import (
 	"time"
 )
 
-
-
 // TestDev is a development aid: VERIF_DEV="C01:500[:base]" runs that many
 // seeds in-process and prints a summary.
 func TestDev(t *testing.T) {
@@ -81,29 +79,29 @@ func TestDiff(t *testing.T) {
 		reps = 2
 	}
 	for ; idx <= hi; idx++ {
-	for rep := 0; rep < reps; rep++ {
-		ch, _ := chooserFor(p, enum, uint64(base), uint64(idx))
-		r1 := ExecRun(t, p, ch, true, "quick")
-		r2 := ExecRun(t, p, NewReplayChooser(ch.Rec), true, "quick")
-		if r1.Digest == r2.Digest {
-			continue
-		}
-		fmt.Printf("index %d rep %d: digests differ %x %x (lens %d %d)\n", idx, rep, r1.Digest, r2.Digest, len(r1.Trace), len(r2.Trace))
-		for i := 0; i < len(r1.Trace) && i < len(r2.Trace); i++ {
-			if r1.Trace[i] != r2.Trace[i] {
-				lo := max(0, i-12)
-				for j := lo; j < min(i+6, len(r1.Trace), len(r2.Trace)); j++ {
-					mark := "  "
-					if r1.Trace[j] != r2.Trace[j] {
-						mark = "!!"
-					}
-					fmt.Printf("%s %-70s | %s\n", mark, r1.Trace[j], r2.Trace[j])
-				}
-				break
+		for rep := 0; rep < reps; rep++ {
+			ch, _ := chooserFor(p, enum, uint64(base), uint64(idx))
+			r1 := ExecRun(t, p, ch, true, "quick")
+			r2 := ExecRun(t, p, NewReplayChooser(ch.Rec), true, "quick")
+			if r1.Digest == r2.Digest {
+				continue
 			}
+			fmt.Printf("index %d rep %d: digests differ %x %x (lens %d %d)\n", idx, rep, r1.Digest, r2.Digest, len(r1.Trace), len(r2.Trace))
+			for i := 0; i < len(r1.Trace) && i < len(r2.Trace); i++ {
+				if r1.Trace[i] != r2.Trace[i] {
+					lo := max(0, i-12)
+					for j := lo; j < min(i+6, len(r1.Trace), len(r2.Trace)); j++ {
+						mark := "  "
+						if r1.Trace[j] != r2.Trace[j] {
+							mark = "!!"
+						}
+						fmt.Printf("%s %-70s | %s\n", mark, r1.Trace[j], r2.Trace[j])
+					}
+					break
+				}
+			}
+			return
 		}
-		return
-	}
 	}
 	fmt.Println("no divergence")
 }
